@@ -19,22 +19,23 @@ echo "tests with change: $(tail -3 $OUT/tests_with.log | head -1)"
 rm -rf _build
 cp demo/patch.diff demo/demo.cpp demo/run.sh $OUT/ 2>/dev/null
 cp demo/NOTES.md $OUT/NOTES.md 2>/dev/null || cp NOTES.md $OUT/NOTES.md 2>/dev/null
-# run the checks against the change in /repo
-cd /repo && git apply $OUT/patch.diff || { echo "patch does not apply to /repo"; exit 2; }
+# run the checks against the change: the agent's worktree (same HEAD as /repo, change applied) is checked through
+# VERIF_REPO, evidence and replay files are redirected; /repo itself is only used to confirm that the patch applies
+git -C /repo apply --check $OUT/patch.diff || { echo "patch does not apply to /repo"; exit 2; }
+EV=/tmp/seed_eval_out_$$; mkdir -p $EV
 RES=""
 for P in $PROPS; do
-  python3 /verif/vcheck.py --property $P --tier quick > $OUT/check_$P.log 2>&1; RC=$?
+  VERIF_REPO=$WT VERIF_OUT_DIR=$EV python3 /verif/vcheck.py --property $P --tier quick > $OUT/check_$P.log 2>&1; RC=$?
   V=$(grep -c "^VIOLATION" $OUT/check_$P.log)
   RES="$RES $P:rc=$RC:violations=$V"
-  echo "check $P: rc=$RC violations=$V $(grep '^VIOLATION' $OUT/check_$P.log | head -2 | sed 's/replay=[^ ]*//' )"
+  echo "check $P: rc=$RC violations=$V replayed=$(grep '^VIOLATION' $OUT/check_$P.log | grep -vc no-failing-input-found)"
   grep "failed obligation" $OUT/check_$P.log | head -3
 done
-git -C /repo checkout -q -- .
-rm -rf /verif/replay/C*
+rm -rf $EV
 python3 - <<PY
 import json
 json.dump({"seed": "$ID", "breaks_property": "$PROPS".split()[0] if "$PROPS" else None, "demo_rc_without_change": $RC0, "demo_rc_with_change": $RC1,
            "existing_tests_pass_with_change": bool($TESTS), "checks": "$RES".split(),
-           "what_i_ran": ["bash demo/run.sh <worktree> (with and without patch.diff)", "cmake/ctest in the worktree with the change", "git -C /repo apply patch.diff; python3 /verif/vcheck.py --property <id> --tier quick; git -C /repo checkout -- ."],
+           "what_i_ran": ["bash demo/run.sh <worktree> (with and without patch.diff)", "cmake/ctest in the worktree with the change", "git -C /repo apply --check patch.diff; VERIF_REPO=<worktree with the change> python3 /verif/vcheck.py --property <id> --tier quick (evidence redirected)"],
            "needs_to_manifest": "see NOTES.md"}, open("$OUT/meta.json", "w"), indent=1)
 PY
